@@ -190,5 +190,11 @@ def gen(rng, nmax=10):
                 if rng.random() < 0.25:
                     edges.append([v, u, rng.randint(0, 9)])            # anti-parallel edge, different weight
     rng.shuffle(edges)
+    if n >= 4 and rng.random() < 0.12:
+        # a negative cycle the source reaches, and a target it does not reach (an isolated node): UNBOUNDED, not INFEASIBLE
+        a, b, t = 1, 2, n - 1
+        edges = [e for e in edges if t not in (e[0], e[1]) and e[2] >= 0] + [[0, a, 1], [a, b, 1], [b, a, -rng.randint(2, 4)]]
+        rng.shuffle(edges)
+        return {"n": n, "edges": edges, "wscale": 1, "src": 0, "dst": t, "dp": 17, "dq": 20, "tol6": 1}
     return {"n": n, "edges": edges, "wscale": rng.choice([1, 1, 4]), "src": rng.randrange(n), "dst": rng.randrange(n),
             "dp": rng.choice([17, 10, 19, 3]), "dq": 20, "tol6": rng.choice([1, 100])}
